@@ -300,6 +300,9 @@ pub struct Gen {
     /// complex embedded (the two apexes see each other through the facet): a random walk on the
     /// flip graph of the point set, i.e. valid but deliberately non-Delaunay triangulations
     pub embedded_k2_permille: u64,
+    /// per-mille probability that a batch input additionally carries 9..16 exact or within-tolerance
+    /// copies (fresh UUIDs) of its own vertices: many skips in one construction
+    pub dup_heavy_permille: u64,
 }
 
 /// Interior facets whose k=2 flip keeps the complex embedded: the opposite apex b lies on the same
@@ -392,6 +395,7 @@ impl Gen {
             legal_bias_permille: 0,
             preset_incident_permille: 0,
             embedded_k2_permille: 0,
+            dup_heavy_permille: 0,
         }
     }
 
@@ -538,6 +542,23 @@ impl Gen {
                 VSpec::new(&self.pool[i], rng.uuid128(), data)
             })
             .collect();
+        if self.dup_heavy_permille > 0 && !out.is_empty() {
+            let mut r3 = Rng::sub(self.seed, "dup-heavy", 0);
+            if r3.below(1000) < self.dup_heavy_permille {
+                let base = out.len();
+                for _ in 0..(9 + r3.usize_below(8)) {
+                    let src = out[r3.usize_below(base)].clone();
+                    let mut c = src.coords();
+                    if r3.chance(1, 3) {
+                        let ax = r3.usize_below(c.len());
+                        c[ax] += if r3.chance(1, 2) { 5e-11 } else { -5e-11 };
+                    }
+                    let data = if r3.chance(1, 2) { Some(r3.range_i64(-1000, 1000) as i32) } else { None };
+                    let at = r3.usize_below(out.len() + 1);
+                    out.insert(at, VSpec::new(&c, r3.uuid128(), data));
+                }
+            }
+        }
         // "rebuilt from vertices copied out of another triangulation": every input carries a cell key
         if self.preset_incident_permille > 0 {
             let mut r2 = Rng::sub(self.seed, "preset-incident", 0);
